@@ -291,15 +291,20 @@ def mk_matcher(mapobj, cfg):
     load_repo()
     from leuvenmapmatching.matcher.simple import SimpleMatcher
     from leuvenmapmatching.matcher.distance import DistanceMatcher
-    kw = {k: v for k, v in cfg.items() if k != "family"}
+    kw = {k: v for k, v in cfg.items() if k not in ("family", "ne_maxnb")}
     fam = cfg["family"]
     if fam == "distance":
-        return DistanceMatcher(mapobj, **kw)
-    if fam == "nk":
+        m = DistanceMatcher(mapobj, **kw)
+    elif fam == "nk":
         from leuvenmapmatching.matcher.newsonkrumm import NewsonKrummMatcher
         kw.pop("avoid_goingback", None)
-        return NewsonKrummMatcher(mapobj, **kw)
-    return SimpleMatcher(mapobj, only_edges=(fam == "simple"), **kw)
+        m = NewsonKrummMatcher(mapobj, **kw)
+    else:
+        m = SimpleMatcher(mapobj, only_edges=(fam == "simple"), **kw)
+    if cfg.get("ne_maxnb") is not None:
+        # public attribute (default 100): the maximal number of non-emitting states between two observations
+        m.non_emitting_states_maxnb = cfg["ne_maxnb"]
+    return m
 
 
 def to_path(trace):
